@@ -38,15 +38,18 @@ Fixpoint fills_of (k : nat) (l : list (nat * Q)) : Q :=
   match l with [] => 0 | (k', x) :: t => if Nat.eqb k k' then x + fills_of k t else fills_of k t end.
 
 (* ---- correspondence: the implementation's turnover before and after every matcher call of a whole run ---- *)
+(* calls nest (a TRADE handler may place an order that is matched at once), so the observations are taken per mark, in trace order *)
 Inductive tobs :=
-| TClear                                             (* a BAR or BEFORE_TRADING event begins *)
-| TCall (k : nat) (pre fill post : Q).               (* one matcher call on k: observed turnover before, traded quantity (0: none), after *)
+| TClear                          (* a BAR or BEFORE_TRADING event begins *)
+| TPre (k : nat) (v : Q)          (* a matcher call on k begins: the turnover it finds *)
+| TFill (k : nat) (qty : Q)       (* a trade of k is announced (the matcher books it just before) *)
+| TPost (k : nat) (v : Q).        (* a matcher call on k returns: the turnover it leaves *)
 Fixpoint turnover_run (s : tmap) (l : list tobs) : bool :=
   match l with
   | [] => true
   | TClear :: t => turnover_run [] t
-  | TCall k pre fill post :: t =>
-      let s' := if qeq_b fill 0 then s else tadd s k fill in
-      qeq_b (tget s k) pre && qeq_b (tget s' k) post && turnover_run s' t
+  | TPre k v :: t => qeq_b (tget s k) v && turnover_run s t
+  | TFill k qty :: t => turnover_run (tadd s k qty) t
+  | TPost k v :: t => qeq_b (tget s k) v && turnover_run s t
   end.
 Definition chk_turnover_run (l : list tobs) : bool := turnover_run [] l.
